@@ -1220,6 +1220,8 @@ func runDB(cfg *config) {
 			runLogCrashes(cfg, id, r.Fork())
 		}
 	case "c16":
+		id++
+		runCacheBound(cfg, id, r.Fork())
 		n := 5 * cfg.scale
 		for i := 0; i < n; i++ {
 			id++
@@ -1540,6 +1542,74 @@ func runCacheFull(cfg *config, id int, r *hx.Rng) {
 		break
 	}
 	cfg.st.Seen(fmt.Sprint(id), true)
+}
+
+// runCacheBound (C15 at the level of the store): with a small cache and no flush, single-row INSERTs
+// fill the cache with dirty pages until a statement is refused ("cache is full"); the number of cached
+// pages is read after every statement and never exceeds the capacity - also right after the refusal,
+// after the flush that follows it, and while the table keeps growing (splits allocate pages while the
+// cache is full).  The statements are judge-only (the model has no capacity).
+func runCacheBound(cfg *config, id int, r *hx.Rng) {
+	cfg.tr.Case(id)
+	d := &rdb{cfg: cfg, name: fmt.Sprintf("cb%d", id)}
+	defer d.close()
+	d.createdb()
+	t := &gtable{name: "t1", cols: []gcol{{"k", "int"}, {"v", "varchar"}}}
+	d.stmt(createText(t))
+	d.flush()
+	d.cap = []int{5, 6, 8, 12}[r.Intn(4)]
+	d.reopen()
+	key := 0
+	stat := func() {
+		d.cfg.tr.Op("cachestat")
+		d.cfg.tr.Tilde(fmt.Sprintf("cache n=%d cap=%d", len(d.rs.VerifCacheKeys()), d.cap))
+	}
+	run := func(q string) string {
+		d.cfg.tr.Op("capstmt %s", hxs(q))
+		res := ""
+		wdog.Run(func() {
+			if pm := hx.Catch(func() { res = d.execStmt(q) }); pm != "" {
+				res = "panic"
+			}
+		})
+		d.cfg.tr.Tilde(res)
+		return res
+	}
+	refusals := 0
+	ntab := 1
+	for s := 0; s < 160 && refusals < 4 && d.rs != nil; s++ {
+		if s%5 == 4 {
+			// CREATE TABLE with many columns: the catalog pages it changes are dirty too, and its rows split
+			// a catalog leaf - a page allocation with (nearly) nothing clean left in the cache
+			ntab++
+			var cols []string
+			for c := 0; c < r.Range(6, 14); c++ {
+				cols = append(cols, fmt.Sprintf("c%d int", c))
+			}
+			res := run(fmt.Sprintf("CREATE TABLE t%d (%s)", ntab, strings.Join(cols, ", ")))
+			stat()
+			if res != "ok" {
+				break // refused half-way with a full cache: the known finding; nothing more to learn here
+			}
+			continue
+		}
+		res := run(fmt.Sprintf("INSERT INTO t1 VALUES (%d, 'v%d')", key, key))
+		key++
+		stat()
+		if strings.HasPrefix(res, "panic") || res == "hang" {
+			break
+		}
+		if res != "ok" {
+			refusals++
+			hx.Catch(func() { d.rs.VerifFlush() })
+			stat()
+		} else if r.Chance(1, 25) {
+			d.flush()
+			stat()
+		}
+	}
+	cfg.st.Seen("cache-bound", true)
+	cfg.st.Add("cache-bound-refusals", refusals)
 }
 
 // runLogCrashes (C03): a history in which chosen DML statements are crashed before each of their
